@@ -53,6 +53,10 @@ def twin_pool():
                 hdr.IPv4SDEndpointOption(v4, proto, 30509),
                 hdr.IPv6EndpointOption(v6, proto, 30509), hdr.IPv6MulticastOption(v6, proto, 30509),
                 hdr.IPv6SDEndpointOption(v6, proto, 30509)]
+    # addresses with a special form: IPv4-mapped IPv6, unspecified, multicast
+    out += [hdr.IPv6EndpointOption(ipaddress.IPv6Address("::ffff:192.0.2.9"), hdr.L4Protocols.UDP, 30509),
+            hdr.IPv6MulticastOption(ipaddress.IPv6Address("::"), hdr.L4Protocols.UDP, 30509),
+            hdr.IPv4EndpointOption(ipaddress.IPv4Address("0.0.0.0"), hdr.L4Protocols.UDP, 30509)]
     return out
 
 
